@@ -99,6 +99,17 @@ def cplugin_path():
     return p
 
 
+def plugin2_path():
+    """A different definition under the same file name (hence the same model id) in another directory."""
+    d = os.path.join(os.environ.get("RTM_C11_DIR") or os.environ.get("RTM_SCRATCH") or tempfile.gettempdir(), "c11plugin", "other")
+    os.makedirs(d, exist_ok=True)
+    p = os.path.join(d, "rtm_pysphere.py")
+    if not os.path.exists(p):
+        with open(p, "w") as f:
+            f.write(PLUGIN.replace("return 1.0e-4*f**2", "return 3.0e-4*f**2 + 0.25"))
+    return p
+
+
 def plugin_path():
     d = os.path.join(os.environ.get("RTM_C11_DIR") or os.environ.get("RTM_SCRATCH") or tempfile.gettempdir(), "c11plugin")
     os.makedirs(d, exist_ok=True)
@@ -241,7 +252,15 @@ def requests():
     add("py/2d-samex", model="PLUGIN", q=QXY_SAMEX, pars=py)
     add("py/Fq1", model="PLUGIN", q=Q3, via="call_Fq", pars=dict(py, radius_effective_mode=1))
     add("py/sasview", model="PLUGIN", q=Q3, via="sasview", pars=dict(py, **{"radius.width": 0.1, "radius.npts": 6}))
+    add("py2/sasview", model="PLUGIN2", q=Q3, via="sasview", pars=dict(py, **{"radius.width": 0.1, "radius.npts": 6}))
+    add("py2/mono", model="PLUGIN2", q=Q3, pars=py)
+    # caller-supplied (values, weights) arrays of an empirical distribution, weights not normalised
+    add("sphere/sasview-array", model="sphere", q=Q3, via="sasview", pars=sph,
+        array={"par": "radius", "values": [30.0, 38.5, 44.0, 51.25, 60.0], "weights": [0.7, 1.9, 3.3, 2.1, 0.6]})
+    add("cylinder/sasview-array", model="cylinder", q=Q3, via="sasview", pars=cyl,
+        array={"par": "length", "values": [250.0, 300.0, 333.0, 410.0], "weights": [1.0, 3.0, 3.0, 1.7]})
     cp = {"radius": 33.0, "thickness": 8.0, "scale": 0.9, "background": 0.3}
+    add("cplug/sasview", model="CPLUGIN", q=Q3, via="sasview", pars=cp)
     add("cplug/mono", model="CPLUGIN", q=Q3, pars=cp)
     add("cplug/pd", model="CPLUGIN", q=Q3, pars=dict(cp, radius_pd=0.2, radius_pd_n=12, thickness_pd=0.3, thickness_pd_n=9))
     add("cplug/empty", model="CPLUGIN", q=Q3, pars=dict(cp, radius=-5.0, radius_pd=0.1, radius_pd_n=6), tag="edge")
@@ -261,11 +280,13 @@ class State:
         self.kernels = {}
         self.sasview = {}
         self.direct = {}
+        self.arrays = {}
 
     def model(self, name):
         from sasmodels import core as sascore
         if name not in self.models:
-            path = plugin_path() if name == "PLUGIN" else cplugin_path() if name == "CPLUGIN" else name
+            path = plugin_path() if name == "PLUGIN" else plugin2_path() if name == "PLUGIN2" else \
+                cplugin_path() if name == "CPLUGIN" else name
             self.models[name] = sascore.load_model(path, dtype="double", platform="dll")
         return self.models[name]
 
@@ -321,6 +342,10 @@ def evaluate(state, req, snapshots=None, keep=None):
         if name not in state.sasview:
             if name == "PLUGIN":
                 Model = sasview_model.load_custom_model(plugin_path())
+            elif name == "PLUGIN2":
+                Model = sasview_model.load_custom_model(plugin2_path())
+            elif name == "CPLUGIN":
+                Model = sasview_model.load_custom_model(cplugin_path())
             else:
                 Model = sasview_model._make_standard_model(name)
             state.sasview[name] = Model()
@@ -336,6 +361,18 @@ def evaluate(state, req, snapshots=None, keep=None):
                 m.setParam(p.name + ".type", "gaussian")
         for k, v in pars.items():
             m.setParam(k, v)
+        arr = req.get("array")
+        if arr:
+            from sasmodels import weights as sasweights
+            # the caller's own arrays live as long as the process state, like a user's data would
+            key = (name, arr["par"])
+            if key not in state.arrays:
+                state.arrays[key] = (np.array(arr["values"], float), np.array(arr["weights"], float))
+            av, aw = state.arrays[key]
+            a_before = (av.copy(), aw.copy())
+            disp = sasweights.ArrayDispersion()
+            disp.set_weights(av, aw)
+            m.set_dispersion(arr["par"], disp)
         if isinstance(q[0], (list, tuple)):
             qa = [np.array(q[0], float), np.array(q[1], float)]
             qb = [a.copy() for a in qa]
@@ -348,6 +385,9 @@ def evaluate(state, req, snapshots=None, keep=None):
             res = m.evalDistribution(qa)
             if snapshots is not None:
                 snapshots.append(("q vector", qb.tolist(), qa.tolist()))
+        if arr and snapshots is not None:
+            snapshots.append(("caller's distribution arrays", [a_before[0].tolist(), a_before[1].tolist()],
+                              [av.tolist(), aw.tolist()]))
     else:
         raise ValueError(via)
     if snapshots is not None:
@@ -451,6 +491,12 @@ def gen_history(rng, reqs, h):
             ["eval", "sphere/sasview3b"], ["eval", "sphere/Fq"], ["eval", "sphere/Fq0"],
             ["eval", "cylinder/Fq3pd"], ["eval", "cylinder/Fq0pd"], ["eval", "cylinder/Fq1"], ["eval", "cylinder/Fq0"],
             ["eval", "hc/Fq2"], ["eval", "hc/Fq0"], ["eval", "py/Fq1"], ["eval", "py/Fq"]]
+    # two plugin files with the same base name (same model id) and different formulas, through both interfaces;
+    # empirical distributions whose arrays belong to the caller, evaluated repeatedly
+    ops += [["eval", "py/sasview"], ["eval", "py2/sasview"], ["eval", "py/sasview"], ["eval", "py2/mono"], ["eval", "py/mono"],
+            ["eval", "cplug/sasview"], ["eval", "sphere/sasview-array"], ["eval", "sphere/sasview-array"],
+            ["eval", "sphere/sasview"], ["eval", "sphere/sasview-array"], ["eval", "cylinder/sasview-array"],
+            ["eval", "cylinder/sasview-array"]]
     if h % 2:
         ops += [["release_kernel", "cylinder"], ["eval", "cylinder/2d-samex"], ["eval", "cylinder/2d"],
                 ["eval", "cylinder/2d-samey"], ["release_model", "PLUGIN"], ["eval", "py/2d"], ["eval", "py/2d-samex"]]
